@@ -7,7 +7,7 @@ import numpy.typing as npt
 
 from geometer.base import EQ_TOL_ABS, EQ_TOL_REL, LeviCivitaTensor, TensorDiagram
 from geometer.curve import absolute_conic
-from geometer.exceptions import NotCollinear, NotConcurrent
+from geometer.exceptions import NotCollinear, NotConcurrent, NotCoplanar
 from geometer.point import (
     I,
     J,
@@ -66,17 +66,30 @@ def crossratio(
         and isinstance(c, LineTensor)
         and isinstance(d, LineTensor)
     ):
-        if not np.all(is_concurrent(a, b, c, d)):
-            raise NotConcurrent("The lines are not concurrent: " + str([a, b, c, d]))
-
-        from_point = a.meet(b)
         if a.dim == 2:
+            if not np.all(is_concurrent(a, b, c, d)):
+                raise NotConcurrent("The lines are not concurrent: " + str([a, b, c, d]))
+
+            from_point = a.meet(b)
             # represent each line by its point on a transversal that does not pass through the common point
             # (an arbitrary base point may coincide with the common point)
             transversal = LineCollection.from_array(np.conj(from_point.array))
             a, b, c, d = a.meet(transversal), b.meet(transversal), c.meet(transversal), d.meet(transversal)
         else:
-            a, b, c, d = a.base_point, b.base_point, c.base_point, d.base_point
+            # four lines of a pencil: coplanar and through the common point of the first two
+            try:
+                from_point = a.meet(b)
+            except NotCoplanar as e:
+                raise NotConcurrent("The lines are not concurrent: " + str([a, b, c, d])) from e
+            plane = a.join(b)
+            concurrent = c.contains(from_point) & d.contains(from_point) & plane.contains(c) & plane.contains(d)
+            if not np.all(concurrent):
+                raise NotConcurrent("The lines are not concurrent: " + str([a, b, c, d]))
+
+            # their points on a transversal plane that does not pass through the common point are collinear
+            transversal = PlaneCollection.from_array(np.conj(from_point.array))
+            a, b, c, d = transversal.meet(a), transversal.meet(b), transversal.meet(c), transversal.meet(d)
+            from_point = None
 
     elif (
         isinstance(a, PlaneTensor)
